@@ -194,7 +194,8 @@ def run(ctx):
     import c08
     import tables as _tables
     enums_, masks_ = _tables.spirv_decls()
-    c08.snapshot_agreement(ctx, rp, enums_, masks_, only=("Op", "GLOp", "CLOp"))
+    import common as _common
+    _common.composed(ctx, "C08-pinned-numbers", lambda: c08.snapshot_agreement(ctx, rp, enums_, masks_, only=("Op", "GLOp", "CLOp")))
     rp.close()
     ctx.extra["cvc5"] = q.summary()
     ctx.extra["entries"] = {k: len(T[k]) for k in ("core", "glsl", "opencl")}
